@@ -93,6 +93,7 @@ def run(ctx):
                 "non-repairable source and two repairable sources on one component): every record joined with "
                 "its baseline twin")
     core.lean_stage(ctx, MODULE, FILE, drivers=["drv_emission"])
+    EC.tie_stage(ctx)  # layer 3: the emission methods, translated from the current source, are the model's functions
     cases = EC.build_cases(ctx)
     results = EC.correspond(ctx, cases)
     cache = {}
